@@ -1,7 +1,7 @@
 ------------------------------ MODULE MCAttest ------------------------------
 (* Bounded model checking of Attest (C06: Spec06, C16: Spec16) and export of the case tables. *)
 EXTENDS Attest, Json
-ASSUME T_RFC /\ T_NullIs2 /\ T_PrefixFree /\ T_PS8
+ASSUME T_RFC /\ T_NullIs2 /\ T_PrefixFree /\ T_PS8 /\ T_Fits /\ T_OddDiffers
 ASSUME T_AlphaInj /\ T_AlphaIs /\ T_MHShape /\ T_MHInj /\ T_MHInjLen /\ T_NibInj
 CONSTANT ExportMode        \* "quick" | "thorough" | "none"
 RSALabelOf(h) == CASE h = "sha1" -> 3 [] h = "sha256" -> 4 [] h = "sha384" -> 5 [] h = "sha512" -> 6 [] OTHER -> -1
